@@ -92,6 +92,9 @@ def reference_functions():
 def _simple(expr):
     if isinstance(expr, (ast.Name, ast.Constant)):
         return True
+    if isinstance(expr, ast.UnaryOp) and isinstance(
+            expr.op, ast.USub) and isinstance(expr.operand, ast.Constant):
+        return True
     if isinstance(expr, ast.Attribute):
         return _simple(expr.value)
     return False
@@ -547,9 +550,62 @@ class _Inliner:
                             setattr(stmt, fld, block(sub))
                     for hdl in getattr(stmt, 'handlers', []) or []:
                         hdl.body = block(hdl.body)
+                    # `for x in h(..):` / `if h(..):` with a value helper:
+                    # the call is evaluated once, before the statement
+                    hoisted = hoist(stmt)
+                    if hoisted is not None:
+                        new = one(hoisted)
+                        if new is not None:
+                            out.extend(new)
+                            out.append(stmt)
+                            continue
+                        unhoist(stmt, hoisted)
                     new = one(stmt)
                     out.extend(new if new is not None else [stmt])
                 return out
+
+            def hoist(stmt):
+                slot = None
+                if isinstance(stmt, ast.For) and isinstance(stmt.iter,
+                                                            ast.Call):
+                    slot = ('iter', stmt.iter)
+                elif isinstance(stmt, ast.If) and isinstance(stmt.test,
+                                                             ast.Call):
+                    slot = ('test', stmt.test)
+                elif isinstance(stmt, ast.If) and isinstance(
+                        stmt.test, ast.UnaryOp) and isinstance(
+                            stmt.test.op, ast.Not) and isinstance(
+                                stmt.test.operand, ast.Call):
+                    slot = ('nottest', stmt.test.operand)
+                if slot is None:
+                    return None
+                hit = outer._match(slot[1], helpers, klass, func)
+                if hit is None or _is_generator(hit[0]) or \
+                        outer._expr_body(hit[0]) is not None:
+                    return None
+                outer.counter += 1
+                name = f'{hit[0].name.strip("_")}_value{outer.counter}'
+                ref = ast.Name(id=name, ctx=ast.Load())
+                if slot[0] == 'iter':
+                    stmt.iter = ref
+                elif slot[0] == 'test':
+                    stmt.test = ref
+                else:
+                    stmt.test.operand = ref
+                assign = ast.Assign(
+                    targets=[ast.Name(id=name, ctx=ast.Store())],
+                    value=slot[1], lineno=stmt.lineno)
+                assign._slot = slot[0]      # pylint: disable=protected-access
+                return assign
+
+            def unhoist(stmt, assign):
+                kind = assign._slot         # pylint: disable=protected-access
+                if kind == 'iter':
+                    stmt.iter = assign.value
+                elif kind == 'test':
+                    stmt.test = assign.value
+                else:
+                    stmt.test.operand = assign.value
 
             def one(stmt):
                 call, mode = None, None
@@ -743,6 +799,18 @@ class _Operators(ast.NodeTransformer):
            'xor': ast.BitXor}
     CMP = {'lt': ast.Lt, 'le': ast.LtE, 'gt': ast.Gt, 'ge': ast.GtE,
            'eq': ast.Eq, 'ne': ast.NotEq}
+
+    def visit_BinOp(self, node):
+        self.generic_visit(node)
+        # x + -1 -> x - 1 ; x - -1 -> x + 1 (a constant bound to a parameter)
+        if isinstance(node.op, (ast.Add, ast.Sub)) and isinstance(
+                node.right, ast.UnaryOp) and isinstance(
+                    node.right.op, ast.USub) and isinstance(
+                        node.right.operand, ast.Constant):
+            flip = ast.Sub() if isinstance(node.op, ast.Add) else ast.Add()
+            return ast.copy_location(ast.BinOp(
+                left=node.left, op=flip, right=node.right.operand), node)
+        return node
 
     def visit_Call(self, node):
         self.generic_visit(node)
